@@ -40,11 +40,31 @@ def main(argv: list[str]) -> int:
         for unit in units:
             try:
                 res = mod.run_unit(unit)
-            except Exception:  # harness failure, never a verdict
-                res = {
-                    "evaluations": 0,
-                    "inconclusive": [f"harness exception in unit {unit}: {traceback.format_exc()[-1200:]}"],
-                }
+            except Exception as e:
+                tb = traceback.extract_tb(e.__traceback__)
+                last = tb[-1].filename if tb else ""
+                if "/zorg/" in last and "/zmon/" not in last:
+                    # the exception was raised by the repository's own code at one of the monitor's
+                    # observation points and escaped: that is an observation, not a harness failure
+                    site = f"{tb[-1].name}"
+                    res = {
+                        "evaluations": 1,
+                        "judged": 1,
+                        "violations": [
+                            {
+                                "summary": f"the repository raised {type(e).__name__}: {str(e)[:300]} in {site} while the monitor was observing unit {unit}: {traceback.format_exc()[-900:]}",
+                                "class": f"repository raised {type(e).__name__} in {site} at an observation point",
+                                "finding": None,
+                                "detail": None,
+                                "case": {"unit": unit},
+                            }
+                        ],
+                    }
+                else:  # harness failure, never a verdict
+                    res = {
+                        "evaluations": 0,
+                        "inconclusive": [f"harness exception in unit {unit}: {traceback.format_exc()[-1200:]}"],
+                    }
             out.write(json.dumps(res, default=str) + "\n")
             out.flush()
     return 0
